@@ -80,6 +80,30 @@ int main(int argc, char** argv) {
       good = true;
       for (int i = 0; i < n; i++) { double s = 0; for (int j = 0; j < n; j++) s += N[(ord.perm(i + 1) - 1) * n + ord.perm(j + 1) - 1] * x[j]; if (std::fabs(s - r[i]) > 1e-8 * (1 + std::fabs(r[i]))) good = false; }
       ok("solve", good, "solve() does not satisfy N x = r for a consistent right-hand side");
+      { // solve() against the dense definition of the same factorisation for right-hand sides outside the range of N (unit vectors):
+        // dense L D L' of the permuted matrix without pivoting, dependent pivots are zero, z(i) = 0 where d(i) = 0
+        std::vector<double> M(n * n), Ld(n * n, 0.0), Dd(n, 0.0);
+        for (int i = 0; i < n; i++) for (int j = 0; j < n; j++) M[i * n + j] = N[(ord.perm(i + 1) - 1) * n + ord.perm(j + 1) - 1];
+        for (int j = 0; j < n; j++) {
+          double d = M[j * n + j]; for (int k = 0; k < j; k++) d -= Ld[j * n + k] * Ld[j * n + k] * Dd[k];
+          if (std::fabs(d) < 1e-9) d = 0;
+          Dd[j] = d; Ld[j * n + j] = 1;
+          for (int i = j + 1; i < n; i++) { double v = M[i * n + j]; for (int k = 0; k < j; k++) v -= Ld[i * n + k] * Ld[j * n + k] * Dd[k]; Ld[i * n + j] = d != 0 ? v / d : 0; }
+        }
+        bool okall = true; std::string msg;
+        for (int u = 0; u <= n && okall; u++) {
+          std::vector<double> rr(n, 0.0);
+          if (u < n) rr[u] = 1; else for (int i = 0; i < n; i++) rr[i] = 3 + 2 * i - (i % 2) * 7;
+          std::vector<double> ref(rr);
+          for (int i = 0; i < n; i++) for (int k = 0; k < i; k++) ref[i] -= Ld[i * n + k] * ref[k];
+          for (int i = 0; i < n; i++) ref[i] = Dd[i] != 0 ? ref[i] / Dd[i] : 0;
+          for (int i = n - 1; i >= 0; i--) for (int k = i + 1; k < n; k++) ref[i] -= Ld[k * n + i] * ref[k];
+          std::vector<double> got(rr);
+          env.solve(got.data(), n);
+          for (int i = 0; i < n; i++) if (std::fabs(got[i] - ref[i]) > 1e-8 * (1 + std::fabs(ref[i]))) { okall = false; msg = "solve() for right-hand side #" + std::to_string(u) + ": x(" + std::to_string(i + 1) + ") = " + std::to_string(got[i]) + ", dense L D L' definition gives " + std::to_string(ref[i]); break; }
+        }
+        ok("solve_any_rhs", okall, msg);
+      }
       Envelope<double, int> q0; q0.inverse(env);
       good = true;
       std::vector<double> Q(n * n, 0.0); bool full = true;
